@@ -215,6 +215,9 @@ def main():
     ap.add_argument('--stride', type=int, default=1, help='take every n-th mutation site')
     ap.add_argument('--tier', default='quick')
     ap.add_argument('--nchecks', type=int, default=2, help='how many of the mapped checks (most relevant first) to run')
+    ap.add_argument('--recheck', default=None, help='JSON-lines file of an earlier sweep: re-run only its undetected survivors, '
+                                                    'with the mapped checks that sweep did not run (skip the first --skip)')
+    ap.add_argument('--skip', type=int, default=0)
     a = ap.parse_args()
     for k_ in FILE_CHECKS:
         FILE_CHECKS[k_] = FILE_CHECKS[k_][:a.nchecks]
@@ -228,6 +231,14 @@ def main():
             except Exception:
                 pass
     tasks = []
+    if a.recheck:
+        for l in open(a.recheck):
+            r = json.loads(l)
+            if r.get('status') == 'survives-suite' and not r.get('detected_by') and (r['file'], r['k']) not in done:
+                rest = FILE_CHECKS[r['file']][a.skip:]
+                if rest:
+                    tasks.append((r['file'], r['k'], a.procs, a.tier, rest))
+        files = []
     for rel in files:
         n = count_sites(open(os.path.join('/repo', LIB, rel)).read())
         for k in range(0, n, a.stride):
